@@ -279,7 +279,7 @@ func replayOps(s *Spec, m *Model, ops []Op, faults []rt.Fault, cfs []rt.CloseFau
 func init() {
 	eng.Register(&eng.Property{
 		ID: "C10", Level: "fault_enumeration",
-		Rule: "for every seeded (registration set with disposable services, scope-tree/resolution/close history) the history is executed once fault-free and then once per constructor invocation position k=1..N (during Build, during scope creation = initializers, during resolution) with that invocation failing (returned error where the signature allows, panic otherwise, alternating); " +
+		Rule: "for every seeded (registration set with disposable services, scope-tree/resolution/close history) the history is executed once fault-free and then once per constructor invocation position k=1..N (during Build, during scope creation = initializers, during resolution) with that invocation failing (returned error where the signature allows, panic otherwise, alternating), and once per Build-time invocation with BuildWithContext cancelled from inside it; " +
 			"at the end of every history (provider.Close, or the failing Build returning) every container-created instance with Close() error must have exactly one close event, none before a Close of its owner / an ancestor / the provider (singletons: provider only), and no almost-Close decoy method may have been called. " +
 			"Non-trivial: >=1 disposable instance was created; distinct = spec hash + fault position.",
 		Shards:     func(tier string) int { return 16 },
@@ -387,6 +387,23 @@ func runC10(c *eng.Ctx) {
 			if c.R.WantSample() && phase == "scope-creation" {
 				c.R.Sample(sampleOf(fr, map[string]any{"kind": "fault", "failing_invocation": fmt.Sprintf("%s #%d (%s)", meta.Name, run.Nth, note[1:])}))
 			}
+		}
+		// Build cancelled (BuildWithContext) from inside each constructor invocation of the Build
+		for ri, run := range o.Runs {
+			if run.Op != 0 {
+				continue
+			}
+			cr2 := NewRun(s, m, nil, nil)
+			cr2.BuildCancelledAt(ri + 1)
+			if cr2.Built {
+				// the cancellation came with the last singleton: the Build may legitimately succeed
+				cr2.Finish()
+			}
+			co := Digest(cr2)
+			report(c, "C10", idx, cr2, MonC10(cr2, co, ":build-cancelled"))
+			positions++
+			c.R.Count("build_cancellation_positions", 1)
+			c.R.Count("close_events", int64(len(co.CloseOrder)))
 		}
 		c.R.Count("fault_positions", int64(positions))
 		c.R.AddEnumerated(int64(positions), int64(positions))
